@@ -177,7 +177,10 @@ def check_guards(project: Project, rep):
                 rep.unmodelled("AR-GUARD", add, add.node, f"{nm}.__add__: path condition of the sum not evaluable ({ex})")
                 continue
             leak = [ev for mism, _, ev in verdicts if mism]
-            if leak:
+            if leak and any(l["pos"] <= I.log.index(ev) for ev in leak for l in I.lossy):
+                rep.unmodelled("AR-GUARD", add, leak[0]["node"], f"{nm}.__add__: the guards could not be followed exactly "
+                                                                 f"({I.lossy[0]['why']})")
+            elif leak:
                 rep.refuted("AR-GUARD", add, leak[0]["node"],
                             f"{nm}.__add__ builds a sum without rejecting operands whose `{a}` differ (facts known at the "
                             f"return: {sym.show(sym.And(*leak[0]['path']) if leak[0]['path'] else sym.TRUE)[:160]})",
